@@ -3,6 +3,7 @@ import HexVerif.Lemmas.XcmpV1
 import HexVerif.Lemmas.XcmpV2
 import HexVerif.Lemmas.IsaAccess
 import HexVerif.Properties.C09
+import HexVerif.Lemmas.SimLoadFile
 import Drivers.Util
 /-!
   Line-protocol driver for the Lean model of xcmp (`Xcmp.stages`, `Xcmp.compile`); mirrors
@@ -196,6 +197,13 @@ def residualField (P : X.Program) : String :=
   | .error e => if Xcmp.CDiag.named e then "0" else "1"
   | .ok st => if Xcmp.dirsOkB st.optimised then "0" else "1"
 
+/-- `H=`: the side conditions of `C01_v3_on_hexsim` / `Sim.loadParts_fileBytes` on the image (fewer than 2^31 symbols,
+    no NUL byte inside a name).  Expected: 1 for every compiled program. -/
+def hexsimSideField (P : X.Program) : String :=
+  match compile P with
+  | .ok img => if decide (img.debug.length < 2 ^ 31) && img.debug.all (fun e => !(Sim.nameBytes e.1).contains 0) then "1" else "0"
+  | .error _ => "-"
+
 def handle (line : String) : String :=
   match (if line.startsWith "acc|" then line.splitOn "|" else []) with
   | [_, fuel, stdin, files, prog] => handleAcc fuel stdin files prog
@@ -203,7 +211,7 @@ def handle (line : String) : String :=
   match parseProgram line with
   | .error w => "bad-input " ++ w
   | .ok P =>
-    (fun r => r ++ " V=" ++ v1Field P ++ " W=" ++ v2Field P ++ " X=" ++ v3Field P ++ " R=" ++ residualField P) <|
+    (fun r => r ++ " V=" ++ v1Field P ++ " W=" ++ v2Field P ++ " X=" ++ v3Field P ++ " R=" ++ residualField P ++ " H=" ++ hexsimSideField P) <|
     match stages P with
     | .error e => let c := "!" ++ e.className; s!"I={c} L={c} O={c} S={c} B={c}"
     | .ok s =>
